@@ -59,6 +59,70 @@ def real_guards(guards) -> List[Cond]:
 
 
 
+def resolve_default_ite(guards, value):
+    """`m = DEFAULT; if C: m = min(DEFAULT, q); if m < DEFAULT: use(m)` is `if C and q < DEFAULT: use(q)`: a guard that compares a joined scalar ite(C, x, y) with a constant,
+    where one arm is a constant that fails the comparison, holds exactly when the other arm was taken and passes it; and min(K, t) < K holds exactly when t < K (and is t
+    then).  Returns (guards, value) with such guards split and the value specialised accordingly; anything else is left as it is."""
+    from .keval import Cond
+
+    def cond_of(q):
+        ats = list(q.atoms()) if isinstance(q, Poly) else []
+        if len(ats) == 1 and ats[0][0] == "f" and q == Poly.atom(ats[0]):
+            nm, args = ats[0][1], ats[0][2]
+            if nm == "cmp:<" and len(args) == 2:
+                return Cond("cmp", args[0], "<", args[1])
+            if nm == "cmp:==" and len(args) == 2:
+                return Cond("cmp", args[0], "==", args[1])
+        return None
+
+    def single(p, fname):
+        ats = list(p.atoms()) if isinstance(p, Poly) else []
+        if len(ats) == 1 and ats[0][0] == "f" and ats[0][1] == fname and p == Poly.atom(ats[0]):
+            return ats[0]
+        return None
+
+    def holds(x, op, k):
+        cx, ck = (x.const_value() if isinstance(x, Poly) else None), (k.const_value() if isinstance(k, Poly) else None)
+        if cx is None or ck is None:
+            return None
+        return {"<": cx < ck, "<=": cx <= ck, "==": cx == ck, "!=": cx != ck}.get(op)
+    out, subs = [], {}
+    for g in guards:
+        done = False
+        if g.kind == "cmp" and g.args[1] in ("<", "<="):
+            a, op, b = g.args
+            it = single(a, "ite")
+            if it is not None and isinstance(b, Poly) and b.const_value() is not None:
+                q, x, y = it[2]
+                c = cond_of(q)
+                if c is not None and holds(y, op, b) is False:
+                    out.extend([c, Cond("cmp", x, op, b, node=g.node)])
+                    subs[it] = x
+                    done = True
+                elif c is not None and holds(x, op, b) is False:
+                    out.extend([c.negate(), Cond("cmp", y, op, b, node=g.node)])
+                    subs[it] = y
+                    done = True
+        if not done:
+            out.append(g)
+    out2 = []
+    for g in out:
+        if g.kind == "cmp" and g.args[1] == "<":
+            a, op, b = g.args
+            mn = single(a, "min") if isinstance(a, Poly) else None
+            if mn is not None and len(mn[2]) == 2 and isinstance(b, Poly) and b.const_value() is not None:
+                k_, t_ = (mn[2][0], mn[2][1]) if (isinstance(mn[2][0], Poly) and mn[2][0].const_value() == b.const_value()) else ((mn[2][1], mn[2][0]) if (isinstance(mn[2][1], Poly) and mn[2][1].const_value() == b.const_value()) else (None, None))
+                if k_ is not None:
+                    out2.append(Cond("cmp", t_, "<", b, node=g.node))
+                    subs[mn] = t_
+                    continue
+        out2.append(g)
+    if isinstance(value, Poly) and subs:
+        for _ in range(3):
+            value = value.subst(lambda at: subs.get(at))
+    return out2, value
+
+
 def drop_implied_any(guards, loop_vars) -> List[Cond]:
     """guards without those of the form any(X[:]) that are implied by another guard of the same store: when the per-element test X[k] is itself among the guards, the
     vectorised `any` of the same test over the whole array (an early return taken when NO element needs the update) holds whenever the element test does, and adds nothing"""
